@@ -1,4 +1,5 @@
 import Dalek.Proofs.AlgCurveLemmas
+import Dalek.Proofs.AlgEdwardsLemmas
 import Dalek.Gen.AlgCurveSh
 import Dalek.Gen.AlgEdwardsSh
 /-!
@@ -329,9 +330,189 @@ theorem ProjectivePoint_is_valid_spec {P : Ed} {X Y Z : Fp} (hP : RepProj P X Y 
     zmodOps_add, zmodOps_sub, const_EDWARDS_D]
   refine congrArg (fun a => [a]) (c2f_true hP.curve_eq)
 
+/-! ## Formulas containing the inversion chain: `compress`, `to_montgomery`, `as_affine_niels` -/
+
+/-- `EdwardsPoint::compress` (field part; the byte packing is modelled by hand): the encoded value is
+the affine `y` of the point and the sign bit is `is_negative(x)`. -/
+theorem compress_spec {P : Ed} {X Y Z T : Fp} (hP : RepExt P X Y Z T) :
+    AProg.run zmodOps AlgEdwards.compress [X, Y, Z, T] = [P.y, c2f (fpIsNeg P.x)] := by
+  rw [AlgEdwards.compress_sh_ok, compress_sh_eq, hP.x_eq, hP.y_eq]
+
+/-- `EdwardsPoint::to_montgomery` (field part): `u = (1 + y)/(1 − y)`; for `y = 1` (the identity) the
+inverse of `0` is `0` and the result is `u = 0` (also the value of `(1+y)/(1-y)` in Lean, `x/0 = 0`). -/
+theorem to_montgomery_spec {P : Ed} {X Y Z T : Fp} (hP : RepExt P X Y Z T) :
+    AProg.run zmodOps AlgEdwards.to_montgomery [X, Y, Z, T] = [(1 + P.y) / (1 - P.y)] := by
+  rw [AlgEdwards.to_montgomery_sh_ok, to_montgomery_sh_eq, montgomery_u_eq hP.1, hP.2.2.1]
+
+/-- The exceptional case of `to_montgomery` made explicit: `y = 1` gives `u = 0`. -/
+theorem to_montgomery_identity {P : Ed} {X Y Z T : Fp} (hP : RepExt P X Y Z T) (hy : P.y = 1) :
+    AProg.run zmodOps AlgEdwards.to_montgomery [X, Y, Z, T] = [0] := by
+  rw [to_montgomery_spec hP, hy, sub_self, div_zero]
+
+/-- `EdwardsPoint::as_affine_niels`. -/
+theorem as_affine_niels_spec {P : Ed} {X Y Z T : Fp} (hP : RepExt P X Y Z T) :
+    ∃ yp ym xy2d, AProg.run zmodOps AlgEdwards.as_affine_niels [X, Y, Z, T] = [yp, ym, xy2d] ∧
+      RepANiels P yp ym xy2d := by
+  rw [AlgEdwards.as_affine_niels_sh_ok, as_affine_niels_sh_eq, hP.x_eq, hP.y_eq]
+  exact ⟨_, _, _, rfl, rfl, rfl, rfl⟩
+
+/-! ## Decompression (field part: `decompress::step_1`, `decompress::step_2`) -/
+
+/-- `decompress::step_1` on the decoded `y`: returns `(is_valid_y_coord, X, Y, Z) = (ok, r, y, 1)` where
+`ok` is a choice, `ok = 1` iff `y` is the ordinate of a curve point, `r` is non-negative, and if
+`ok = 1` then `(r, y)` is on the curve. -/
+theorem decompress_step_1_spec (y : Fp) :
+    ∃ ok r, AProg.run zmodOps AlgEdwards.decompress_step_1 [y] = [ok, r, y, 1] ∧
+      (ok = 0 ∨ ok = 1) ∧ ¬ fpIsNeg r ∧ (ok = 1 ↔ ∃ x, onCurve d x y) ∧ (ok = 1 → onCurve d r y) := by
+  refine ⟨_, _, ?_, sqrtRatioFp_flag _ _, sqrtRatioFp_not_isNeg _ _, decompress_flag_iff y,
+    decompress_root_onCurve⟩
+  rw [AlgEdwards.decompress_step_1_sh_ok, decompress_step_1_sh_eq]
+
+/-- `decompress::step_2` on a non-negative root `r` with `(r, y)` on the curve and the sign bit `s`
+(a choice): `X` is negated iff `s ≠ 0`, `T = X·Y`; the result is a valid extended point `Q` with
+`Q.y = y`, `Q.x = ±r`, and — unless `Q.x = 0`, in which case the sign bit is ignored — the sign of
+`Q.x` is the requested one. -/
+theorem decompress_step_2_spec {r y : Fp} (s : Fp) (hr : onCurve d r y) (hneg : ¬ fpIsNeg r) :
+    ∃ Q : Ed, Q.y = y ∧ Q.x = (if s = 0 then r else -r) ∧
+      (Q.x ≠ 0 → (fpIsNeg Q.x ↔ s ≠ 0)) ∧
+      ∃ X Y Z T, AProg.run zmodOps AlgEdwards.decompress_step_2 [r, y, 1, s] = [X, Y, Z, T] ∧
+        RepExt Q X Y Z T := by
+  have hon : onCurve edParams.d (if s = 0 then r else -r) y := by
+    rw [edParams_d]
+    by_cases h : s = 0
+    · rw [if_pos h]; exact hr
+    · rw [if_neg h]; unfold onCurve at hr ⊢; linear_combination hr
+  refine ⟨⟨_, y, hon⟩, rfl, rfl, ?_, ?_⟩
+  · show (if s = 0 then r else -r) ≠ 0 → (fpIsNeg (if s = 0 then r else -r) ↔ s ≠ 0)
+    by_cases h : s = 0
+    · simp only [if_pos h]; intro _
+      exact ⟨fun h' => absurd h' hneg, fun h' => absurd h h'⟩
+    · simp only [if_neg h]; intro h0
+      have hr0 : r ≠ 0 := fun e => h0 (by rw [e, neg_zero])
+      exact ⟨fun _ => h, fun _ => (fpIsNeg_neg hr0).2 hneg⟩
+  · rw [AlgEdwards.decompress_step_2_sh_ok, decompress_step_2_sh_eq]
+    refine ⟨_, _, _, _, rfl, one_ne_zero, ?_, ?_, ?_⟩
+    · show (if s = 0 then r else -r) = _ / 1; rw [div_one]
+    · show y = y / 1; rw [div_one]
+    · rw [one_mul]
+
+/-- **Decompression, both steps**: for the decoded `y` and sign bit `s`, `step_1` accepts iff `y` is the
+ordinate of a curve point, and then `step_2` returns a valid `EdwardsPoint` for the point with that `y`
+and the requested sign of `x` (for `x = 0` the sign bit is ignored). -/
+theorem decompress_spec (y s : Fp) :
+    ∃ ok r, AProg.run zmodOps AlgEdwards.decompress_step_1 [y] = [ok, r, y, 1] ∧
+      (ok = 0 ∨ ok = 1) ∧ (ok = 1 ↔ ∃ x, onCurve d x y) ∧
+      (ok = 1 → ∃ Q : Ed, Q.y = y ∧ (Q.x ≠ 0 → (fpIsNeg Q.x ↔ s ≠ 0)) ∧
+        ∃ X Y Z T, AProg.run zmodOps AlgEdwards.decompress_step_2 [r, y, 1, s] = [X, Y, Z, T] ∧
+          RepExt Q X Y Z T) := by
+  obtain ⟨ok, r, h1, h2, h3, h4, h5⟩ := decompress_step_1_spec y
+  refine ⟨ok, r, h1, h2, h4, fun h => ?_⟩
+  obtain ⟨Q, hy, -, hs, hrep⟩ := decompress_step_2_spec s (h5 h) h3
+  exact ⟨Q, hy, hs, hrep⟩
+
+/-- **Agreement with the executable specification `Spec.decompress`** (which `Bridge.decompress_some`,
+`decompress_none_iff`, `decompress_complete` characterise): on the field element decoded from the bytes
+`b` and the sign bit of `b`, the translated steps reject exactly when `Spec.decompress b = none`, and
+otherwise return the extended coordinates `(x : y : 1 : x·y)` of the specification's point. -/
+theorem decompress_eq_spec (b : List UInt8) :
+    ∃ ok r, AProg.run zmodOps AlgEdwards.decompress_step_1 [((Spec.feFromBytes b : Nat) : Fp)]
+        = [ok, r, ((Spec.feFromBytes b : Nat) : Fp), 1] ∧
+      (Spec.decompress b = none → ok = 0) ∧
+      (∀ p, Spec.decompress b = some p → ok = 1 ∧
+        AProg.run zmodOps AlgEdwards.decompress_step_2
+            [r, ((Spec.feFromBytes b : Nat) : Fp), 1, c2f (Spec.signBit b = true)]
+          = [(p.x : Fp), (p.y : Fp), 1, (p.x : Fp) * (p.y : Fp)] ∧
+        ∃ h : Spec.onCurve p = true,
+          RepExt (Bridge.toEd p h) (p.x : Fp) (p.y : Fp) 1 ((p.x : Fp) * (p.y : Fp))) := by
+  have hu : ((Bridge.decU b : Nat) : Fp) = ((Spec.feFromBytes b : Nat) : Fp) ^ 2 - 1 := Bridge.cast_decU b
+  have hv : ((Bridge.decV b : Nat) : Fp) = d * ((Spec.feFromBytes b : Nat) : Fp) ^ 2 + 1 := Bridge.cast_decV b
+  have huv : (((Spec.feFromBytes b : Nat) : Fp) ^ 2 - 1).val = Bridge.decU b := by
+    rw [← hu, Bridge.val_cast, Nat.mod_eq_of_lt (show Bridge.decU b < Spec.P from Bridge.fsub_lt _ _)]
+  have hvv : (d * ((Spec.feFromBytes b : Nat) : Fp) ^ 2 + 1).val = Bridge.decV b := by
+    rw [← hv, Bridge.val_cast, Nat.mod_eq_of_lt (show Bridge.decV b < Spec.P from Bridge.fadd_lt _ _)]
+  refine ⟨(sqrtRatioFp (((Spec.feFromBytes b : Nat) : Fp) ^ 2 - 1)
+      (d * ((Spec.feFromBytes b : Nat) : Fp) ^ 2 + 1)).1,
+    (sqrtRatioFp (((Spec.feFromBytes b : Nat) : Fp) ^ 2 - 1)
+      (d * ((Spec.feFromBytes b : Nat) : Fp) ^ 2 + 1)).2, ?_, ?_, ?_⟩
+  · rw [AlgEdwards.decompress_step_1_sh_ok, decompress_step_1_sh_eq]
+  · intro hnone
+    rw [sqrtRatioFp_fst, huv, hvv]
+    rw [Bridge.decompress_unfold] at hnone
+    by_cases hok : (Spec.sqrtRatioM1 (Bridge.decU b) (Bridge.decV b)).1 = true
+    · rw [if_pos hok] at hnone; cases hnone
+    · exact c2f_false hok
+  · intro p hp
+    obtain ⟨hon, -⟩ := Bridge.decompress_some hp
+    rw [Bridge.decompress_unfold] at hp
+    by_cases hok : (Spec.sqrtRatioM1 (Bridge.decU b) (Bridge.decV b)).1 = true
+    · rw [if_pos hok] at hp
+      have hp' := (Option.some.inj hp).symm
+      have hx : (p.x : Fp) = if c2f (Spec.signBit b = true) = 0 then
+          (((Spec.sqrtRatioM1 (Bridge.decU b) (Bridge.decV b)).2 : Nat) : Fp)
+          else -(((Spec.sqrtRatioM1 (Bridge.decU b) (Bridge.decV b)).2 : Nat) : Fp) := by
+        rw [hp']
+        by_cases hs : Spec.signBit b = true
+        · simp only [if_pos hs, c2f_true hs, one_ne_zero, if_false, Bridge.cast_fneg]
+        · simp only [if_neg hs, c2f_false hs, if_true]
+      have hy : (p.y : Fp) = ((Spec.feFromBytes b : Nat) : Fp) := by rw [hp']
+      refine ⟨?_, ?_, hon, ?_⟩
+      · rw [sqrtRatioFp_fst, huv, hvv]; exact c2f_true hok
+      · rw [AlgEdwards.decompress_step_2_sh_ok, decompress_step_2_sh_eq, sqrtRatioFp_snd, huv, hvv,
+          ← hx, ← hy]
+      · exact Dalek.Edwards.repExt_affine (Bridge.toEd p hon)
+    · rw [if_neg hok] at hp; cases hp
+
 /-! ### The hypotheses are satisfiable -/
 
 /-- `(0 : 1 : 1 : 0)` is a valid extended point, so none of the theorems above is vacuous. -/
 example : RepExt (0 : Ed) 0 1 1 0 := repExt_zero
+
+
+/-! ### Axiom audit -/
+
+/-- info: 'Dalek.Props.C03.add_ProjectiveNielsPoint_spec' depends on axioms: [propext, Classical.choice, Quot.sound] -/
+#guard_msgs in #print axioms add_ProjectiveNielsPoint_spec
+
+/-- info: 'Dalek.Props.C03.sub_ProjectiveNielsPoint_spec' depends on axioms: [propext, Classical.choice, Quot.sound] -/
+#guard_msgs in #print axioms sub_ProjectiveNielsPoint_spec
+
+/-- info: 'Dalek.Props.C03.add_AffineNielsPoint_spec' depends on axioms: [propext, Classical.choice, Quot.sound] -/
+#guard_msgs in #print axioms add_AffineNielsPoint_spec
+
+/-- info: 'Dalek.Props.C03.sub_AffineNielsPoint_spec' depends on axioms: [propext, Classical.choice, Quot.sound] -/
+#guard_msgs in #print axioms sub_AffineNielsPoint_spec
+
+/-- info: 'Dalek.Props.C03.ProjectivePoint_double_spec' depends on axioms: [propext, Classical.choice, Quot.sound] -/
+#guard_msgs in #print axioms ProjectivePoint_double_spec
+
+/-- info: 'Dalek.Props.C03.double_spec' depends on axioms: [propext, Classical.choice, Quot.sound] -/
+#guard_msgs in #print axioms double_spec
+
+/-- info: 'Dalek.Props.C03.add_spec' depends on axioms: [propext, Classical.choice, Quot.sound] -/
+#guard_msgs in #print axioms add_spec
+
+/-- info: 'Dalek.Props.C03.sub_spec' depends on axioms: [propext, Classical.choice, Quot.sound] -/
+#guard_msgs in #print axioms sub_spec
+
+/-- info: 'Dalek.Props.C03.ct_eq_spec' depends on axioms: [propext, Classical.choice, Quot.sound] -/
+#guard_msgs in #print axioms ct_eq_spec
+
+/-- info: 'Dalek.Props.C03.is_valid_iff' depends on axioms: [propext, Classical.choice, Quot.sound] -/
+#guard_msgs in #print axioms is_valid_iff
+
+/-- info: 'Dalek.Props.C03.compress_spec' depends on axioms: [propext, Classical.choice, Quot.sound] -/
+#guard_msgs in #print axioms compress_spec
+
+/-- info: 'Dalek.Props.C03.to_montgomery_spec' depends on axioms: [propext, Classical.choice, Quot.sound] -/
+#guard_msgs in #print axioms to_montgomery_spec
+
+/-- info: 'Dalek.Props.C03.as_affine_niels_spec' depends on axioms: [propext, Classical.choice, Quot.sound] -/
+#guard_msgs in #print axioms as_affine_niels_spec
+
+/-- info: 'Dalek.Props.C03.decompress_spec' depends on axioms: [propext, Classical.choice, Quot.sound] -/
+#guard_msgs in #print axioms decompress_spec
+
+/-- info: 'Dalek.Props.C03.decompress_eq_spec' depends on axioms: [propext, Classical.choice, Quot.sound] -/
+#guard_msgs in #print axioms decompress_eq_spec
 
 end Dalek.Props.C03
